@@ -541,6 +541,14 @@ func genCase(t *rapid.T, stratum int) routeCase {
 	case 5: // a broker joins and takes over a partition
 		if ch, ok := genChangeOf(t, m, "add_broker", "s5a"); ok {
 			add(ch...)
+			if rapid.Bool().Draw(t, "s5coord") && len(m.groups) > 0 {
+				// ... and becomes a group's coordinator before the transport has heard of it: the group request can only
+				// fail or wait, it has no business at any other broker
+				k := m.groups[rapid.IntRange(0, len(m.groups)-1).Draw(t, "s5key")]
+				m.coords[k] = ch[0].Broker.ID
+				add(step{Op: "move_coord", Key: k, To: ch[0].Broker.ID})
+				add(step{Op: "group", Api: rapid.SampledFrom([]string{"heartbeat", "offsetcommit", "offsetfetch"}).Draw(t, "s5api"), Key: k, Par: 1})
+			}
 			add(step{Op: "await"})
 			m.dirty = false
 			if len(ch) > 1 {
